@@ -73,7 +73,7 @@ def site_sig(out):
 def run_C04(chk):
     chk.prepare_model('Cctz.Properties.C04', THEOREMS['C04'])
     exe = chk.harness('san')
-    scale = chk.tier if not chk.broken else 'thorough'
+    scale = chk.tier if not (chk.broken or chk.degraded) else 'thorough'
     if exe is None or not getattr(chk, 'driver_ok', False):
         return chk.finish()
     lines, meta = gen_new_lines(chk, 'quick' if scale == 'quick' else 'thorough')
@@ -167,7 +167,7 @@ def gen_arith(chk, scale):
 def run_C05(chk):
     chk.prepare_model('Cctz.Properties.C05', THEOREMS['C05'])
     exe = chk.harness('san')
-    scale = chk.tier if not chk.broken else 'thorough'
+    scale = chk.tier if not (chk.broken or chk.degraded) else 'thorough'
     if exe is None or not getattr(chk, 'driver_ok', False):
         return chk.finish()
     ops = gen_arith(chk, scale)
@@ -244,7 +244,7 @@ def run_C05(chk):
 def run_C17(chk):
     chk.prepare_model('Cctz.Properties.C17', THEOREMS['C17'])
     exe = chk.harness('san')
-    scale = chk.tier if not chk.broken else 'thorough'
+    scale = chk.tier if not (chk.broken or chk.degraded) else 'thorough'
     if exe is None or not getattr(chk, 'driver_ok', False):
         return chk.finish()
     rng = chk.rng
